@@ -153,6 +153,24 @@ def check_texts(texts):
     return out
 
 
+EXOTIC_BREAKS = "\r\x0b\x0c\x1c\x1d\x1e\x85\u2028\u2029"
+
+
+def exotic_break_class(doc):
+    """Recorded findings (found with the Lean model of the block scanner, Props/C19d: they are exactly what its sub-language D excludes): a character
+    that str.splitlines counts as a line break but CommonMark does not (lone CR, VT, FF, FS/GS/RS, NEL, LS, PS) (a) on the opening line of a code
+    fence, or (b) on a white-space-only line. marko keeps (a) as one line and turns (b) inside a code block into a plain line feed or drops it, so the
+    text the compiler sees has fewer lines than the document. Anything else keeps the plain signature."""
+    norm = doc.replace("\r\n", "\n")
+    for line in norm.split("\n"):
+        if any(c in line for c in EXOTIC_BREAKS):
+            if line.lstrip(" ").startswith(("```", "~~~")):
+                return ":line-break-character-on-a-fence-line"
+            if not line.strip():
+                return ":line-break-character-on-a-blank-line"
+    return ""
+
+
 def check_markdown(doc):
     try:
         compile_markdown(doc)
@@ -161,7 +179,7 @@ def check_markdown(doc):
         snippet = e.snippet.strip()
         if not (1 <= e.line <= len(lines)) or (snippet and snippet not in lines[e.line - 1]) or (not snippet and lines[e.line - 1].strip(" \t>-") not in ("", "```", "~~~")
                                                                                         and not lines[e.line - 1].strip().startswith(("```", "~~~"))):
-            return [("C07:markdown-error-names-one-line-quotes-another", "line %r quoted %r, document line is %r" % (
+            return [("C07:markdown-error-names-one-line-quotes-another" + exotic_break_class(doc), "line %r quoted %r, document line is %r" % (
                 e.line, e.snippet, lines[e.line - 1] if 1 <= e.line <= len(lines) else None))]
     except RecursionError:
         return [(classify_exception("RecursionError", [doc]), "markdown %r" % doc[:200])]
@@ -171,6 +189,11 @@ def check_markdown(doc):
             return [("C07:ZeroDivisionError:zero-denominator", "markdown %r" % doc[:200])]
         if name == "AttributeError" and re.search(r"!\[[^\]]*\{[^}]*\}[^\]]*\]\(", doc):
             return [("C07:AttributeError:brace-expression-in-image-alt-text", "markdown %r" % doc[:200])]
+        try:
+            import marko
+            marko.Markdown()(doc)
+        except Exception:  # noqa
+            return []      # the statement is about documents "that the underlying CommonMark converter can itself convert"
         return [("C07:%s:undocumented-exception-markdown" % name, "markdown %r: %s" % (doc[:200], str(e)[:100]))]
     return []
 
@@ -221,7 +244,8 @@ def check_promptness():
 CORPUS = [["{}"], ["2 {}"], ["mix(flour, salt {})"], ["{} = boil(water)\nserve({})"], ["fry('')"], ["a {}{} b"], ["1" * 400 + " spam\nfry(1 spam)"], ["1" * 400 + " g spam\nfry(" + "1" * 397 + ".0 kg spam)"], ["1" * 4301 + " spam"],
           ["1/0 x"], ["2 1/0 kg x"], ["{1/0} x"], ["x {a 3/0 b}"], [" ".join(["'a'"] * 80)], ["f(" * 25 + "x" + ")" * 25], ["9" * 310 + " x"],
           [""], ["\n"], ["x ="], ["a = b = c"], ["1/ spam"], ["foo, foo = spam"], ["50% x"], ["x\nx = 1\n rest of y"]]
-MD_CORPUS = ["{1/0}", "![{2} eggs](x.png)", "# T\n\n    1/0 x\n", "# Title for 2\n\n    2 eggs\n", "```recipe\nx = \n```\n", "text {3 1/2} more {x\\}}"]
+MD_CORPUS = ["```recipe\r\r\nx = 1 egg\nx = 2 eggs\n```\n", "```recipe\x0c\nx = 1 egg\nx = 2 eggs\n```\n", "    x = 1 egg\n\r\r\n    x = 2 eggs\n",
+             "  ```recipe\n  x = 1 egg\n \x0c\n  x = 2 eggs\n  ```\n", "*\rx\n", "{1/0}", "![{2} eggs](x.png)", "# T\n\n    1/0 x\n", "# Title for 2\n\n    2 eggs\n", "```recipe\nx = \n```\n", "text {3 1/2} more {x\\}}"]
 
 
 def gen_texts(run, n):
